@@ -63,9 +63,13 @@ func valStr(kind string, v int) string {
 	case "ann", "env", "unified":
 		return fmt.Sprintf("v%d", v)
 	case "mount":
-		return fmt.Sprintf("/src/v%d", v)
+		m := mkMount("", v)
+		return mountDesc(m.Source, m.Type, m.Options)
 	case "hook":
-		return fmt.Sprintf("/hook/v%d", v)
+		h := mkHook(v)
+		return hookDesc(h.Path, h.Args, h.Env, h.Timeout.Get())
+	case "rlimit":
+		return rlimitDesc(uint64(v), uint64(v)/2)
 	case "cgpath":
 		return fmt.Sprintf("/cg/v%d", v)
 	case "cdi":
@@ -309,7 +313,7 @@ func extractHooks(h *api.Hooks, c *CState) {
 	}
 	add := func(k string, hs []*api.Hook) {
 		for _, x := range hs {
-			c.Hooks[k] = append(c.Hooks[k], x.Path)
+			c.Hooks[k] = append(c.Hooks[k], hookDesc(x.Path, x.Args, x.Env, x.Timeout.Get()))
 		}
 	}
 	add("prestart", h.Prestart)
@@ -344,12 +348,12 @@ func extractContainer(ctr *api.Container) *CState {
 		if _, dup := c.Mounts[m.Destination]; dup {
 			c.Anomal = append(c.Anomal, fmt.Sprintf("mount destination %q listed more than once", m.Destination))
 		}
-		c.Mounts[m.Destination] = m.Source
+		c.Mounts[m.Destination] = mountDesc(m.Source, m.Type, m.Options)
 	}
 	c.Args = append([]string(nil), ctr.Args...)
 	extractHooks(ctr.Hooks, c)
 	for _, l := range ctr.Rlimits {
-		c.Rlimits = append(c.Rlimits, l.Type+"="+strconv.FormatUint(l.Hard, 10))
+		c.Rlimits = append(c.Rlimits, l.Type+"="+rlimitDesc(l.Hard, l.Soft))
 	}
 	if l := ctr.Linux; l != nil {
 		for _, d := range l.Devices {
@@ -393,7 +397,7 @@ func extractAdjustSets(a *api.ContainerAdjustment) (map[string]string, []string)
 	}
 	for _, m := range a.Mounts {
 		if _, marked := m.IsMarkedForRemoval(); !marked {
-			put("mount|"+m.Destination, m.Source)
+			put("mount|"+m.Destination, mountDesc(m.Source, m.Type, m.Options))
 		}
 	}
 	if len(a.Args) > 0 {
@@ -403,7 +407,7 @@ func extractAdjustSets(a *api.ContainerAdjustment) (map[string]string, []string)
 		put("cdi|"+d.Name, "present")
 	}
 	for _, l := range a.Rlimits {
-		put("rlimit|"+l.Type, strconv.FormatUint(l.Hard, 10))
+		put("rlimit|"+l.Type, rlimitDesc(l.Hard, l.Soft))
 	}
 	if l := a.Linux; l != nil {
 		for _, d := range l.Devices {
